@@ -244,7 +244,7 @@ theorem C01_quiescent_success (cfgA cfgB : Cfg) (sch : List SysEv)
     exact drained_success s.b s.a s.toA s.toB hi.ib hi.ia wb hw.2 hw.1 hi.wireA hi.wireB hd h1 h2 h3 qb.1 qb.2 sb ra hn
 
 /-- the causality invariant holds at the start of the two-endpoint system -/
-private theorem cs_init (cfgA cfgB : Cfg)
+theorem cs_init (cfgA cfgB : Cfg)
     (a1 : 0 < cfgA.segInit) (a2 : cfgA.privExt = false) (a3 : 0 < cfgA.segMru)
     (b1 : 0 < cfgB.segInit) (b2 : cfgB.privExt = false) (b3 : 0 < cfgB.segMru) : CS (initSys cfgA cfgB) := by
   refine ⟨sysInv_init cfgA cfgB a1 a2 a3 b1 b2 b3, (QInv.init cfgA).step _ _, (QInv.init cfgB).step _ _,
